@@ -22,7 +22,7 @@ func TestVerifC19Fresh(t *testing.T) {
 	defer rep.Finish(t)
 	rep.Rule = "on a NEW account per sequence (no reference reset, no contact shared so far): every sequence of length <= 3 over {ContactRequestEnable, ContactRequestDisable, ContactRequestResetReference} plus sequences with ShareContact and ContactRequestReference; " +
 		"after each call the monitor waits until the contact-request manager's background handler has caught up with the model (enabled flag, rendezvous seed present) - the handler runs on a goroutine whose panic ends the process; each call under recover. " +
-		"Oracle: no panic in the call, process alive (a dead process is reported by the driver with the announced sequence), every call returns. distinct = sequences"
+		"A second part issues every sequence of <= 3 (thorough: 4) of {MultiMemberGroupJoin, MultiMemberGroupLeave, ActivateGroup, DeactivateGroup} on a fresh group each, on one running service. Oracle: no panic in the call, process alive (a dead process is reported by the driver with the announced sequence), every call returns. distinct = sequences"
 	ctx := context.Background()
 	type step struct {
 		name string
@@ -144,6 +144,96 @@ func TestVerifC19Fresh(t *testing.T) {
 			}
 		}
 		rep.Case(tag)
+		cleanup()
+	}
+	// ---- membership of one group: every sequence of <= 3 (thorough: 4) of {Join, Leave, Activate, Deactivate} on a fresh
+	// multi-member group each, one running service (what a handler keeps about a group it left, joined again, deactivated...)
+	{
+		tp, cleanup := NewTestingProtocol(ctx, t, &TestingOpts{}, nil)
+		svc, ok := tp.Service.(*service)
+		if !ok {
+			cleanup()
+			rep.Inconclusivef("testing protocol does not expose *service")
+			return
+		}
+		type gstep struct {
+			name string
+			call func(g *protocoltypes.Group) error
+		}
+		galpha := []gstep{
+			{"Join", func(g *protocoltypes.Group) error {
+				_, err := svc.MultiMemberGroupJoin(ctx, &protocoltypes.MultiMemberGroupJoin_Request{Group: g})
+				return err
+			}},
+			{"Leave", func(g *protocoltypes.Group) error {
+				_, err := svc.MultiMemberGroupLeave(ctx, &protocoltypes.MultiMemberGroupLeave_Request{GroupPk: g.PublicKey})
+				return err
+			}},
+			{"Activate", func(g *protocoltypes.Group) error {
+				_, err := svc.ActivateGroup(ctx, &protocoltypes.ActivateGroup_Request{GroupPk: g.PublicKey, LocalOnly: true})
+				return err
+			}},
+			{"Deactivate", func(g *protocoltypes.Group) error {
+				_, err := svc.DeactivateGroup(ctx, &protocoltypes.DeactivateGroup_Request{GroupPk: g.PublicKey})
+				return err
+			}},
+		}
+		var gseqs [][]gstep
+		var grec func(prefix []gstep)
+		maxLen := verifkit.Pick(3, 4)
+		grec = func(prefix []gstep) {
+			if len(prefix) > 0 {
+				gseqs = append(gseqs, append([]gstep(nil), prefix...))
+			}
+			if len(prefix) == maxLen {
+				return
+			}
+			for _, st := range galpha {
+				grec(append(prefix, st))
+			}
+		}
+		grec(nil)
+		gseqs = append(gseqs, []gstep{galpha[0], galpha[2], galpha[1], galpha[0], galpha[2]}, []gstep{galpha[0], galpha[1], galpha[0], galpha[1], galpha[0]})
+		for si, seq := range gseqs {
+			g, _, err := NewGroupMultiMember()
+			if err != nil {
+				rep.Inconclusivef("group: %v", err)
+				break
+			}
+			var names []string
+			for _, st := range seq {
+				names = append(names, st.name)
+			}
+			tag := "group:" + strings.Join(names, ",")
+			fmt.Printf("C19-FRESH group sequence %d starts: %s\n", si, tag)
+			for i, st := range seq {
+				var err error
+				done := make(chan struct{})
+				var pnc interface{}
+				var stack string
+				go func() {
+					defer close(done)
+					pnc, stack = verifkit.Try(func() { err = st.call(g) })
+				}()
+				select {
+				case <-done:
+				case <-time.After(30 * time.Second):
+					rep.Violate("C19/rpc="+st.name+"/does-not-return/group-sequence", "a group membership RPC does not return", map[string]interface{}{"sequence": tag, "step": i})
+					continue
+				}
+				rep.Eval(1)
+				if pnc != nil {
+					rep.Violate("C19/rpc="+st.name+"/panic/group-sequence", fmt.Sprintf("%v", pnc), map[string]interface{}{"sequence": tag, "step": i, "stack": c19Trim(stack)})
+					break
+				}
+				if err != nil {
+					rep.Count("group_calls_answered_with_an_error", 1)
+				} else {
+					rep.Count("group_calls_accepted", 1)
+				}
+			}
+			rep.Case(tag)
+		}
 		cleanup()
 	}
 	rep.Sample(map[string]interface{}{"sequences": len(seqs), "example": "Enable,Disable on an account that never reset its reference"})
